@@ -176,7 +176,7 @@ def check(ctx):
         {"fn": "push_state::PushState::with_input::{closure#", "what": "panicking::panic_fmt",
          "reason": "documented proviso of the property: an input variable that was never bound", "guard": None},
     ] + rules_c04.stack_discharge()
-    audit_panics(ctx, "R03.4", scope, discharge, floor=14)
+    audit_panics(ctx, "R03.4", scope, discharge, floor=13)
     # ---- R03.5 loop audit ---------------------------------------------------------------------
     n_loops = 0
     for fid in sorted(scope):
